@@ -102,6 +102,11 @@ fn main() {
     };
     let verif_dir = std::env::var("VERIF_DIR").unwrap_or_else(|_| "/verif".to_string());
 
+    if extra.iter().any(|a| a == "--conformance") && entry.id == "C16" {
+        prop::c16::conformance_main();
+        std::process::exit(0);
+    }
+
     if let Some(path) = replay {
         let text = match std::fs::read_to_string(&path) {
             Ok(t) => t,
